@@ -173,7 +173,7 @@ def probe(C, key, expect, bad, who):
         bad.append(["i", f"{who}: construct_type({key!r}) disagrees with the constructs held"])
 
 
-def oracle(f, probes=()):
+def oracle(f, probes=(), view_regs=()):
     bad = []
     C = f.constructs
     try:
@@ -258,13 +258,30 @@ def oracle(f, probes=()):
         dda = {k: tuple(v) for k, v in DC.data_axes().items()}
         if fda != dda:
             bad.append(["v", f"domain data axes {dda} != field's {fda}"])
+        # the views held in registers (views of the field, views of views ...)
+        for n, d in enumerate(view_regs, 1):
+            VC = d.constructs
+            vd = VC.todict()
+            if set(vd) != expect or len(VC) != len(expect) or set(VC.keys()) != expect:
+                bad.append(["v", f"view register {n} sees {sorted(vd)} (len {len(VC)}), field has {sorted(expect)}"])
+            for k in set(vd) & expect:
+                if vd[k] is not todict[k]:
+                    bad.append(["v", f"view register {n}: construct {k!r} is not the field's construct"])
+            if {k: tuple(v) for k, v in VC.data_axes().items()} != fda:
+                bad.append(["v", f"view register {n}: data axes differ from the field's"])
+            for k in set(probes):
+                probe(VC, k, k in expect, bad, f"view register {n}")
     except Exception as e:  # the inspection API itself failed
         bad.append(["inspect", f"{type(e).__name__}: {e}"])
     # (vi) repr, str, dump
-    for name, fn in (("repr", lambda: repr(f)), ("str", lambda: str(f)),
+    more = []
+    for n, d in enumerate(view_regs, 1):
+        more.append((f"view-register-{n}-str", lambda d=d: str(d)))
+        more.append((f"view-register-{n}-dump", lambda d=d: d.dump(display=False)))
+    for name, fn in [("repr", lambda: repr(f)), ("str", lambda: str(f)),
                      ("dump", lambda: f.dump(display=False)),
                      ("domain-str", lambda: str(f.domain)),
-                     ("domain-dump", lambda: f.domain.dump(display=False))):
+                     ("domain-dump", lambda: f.domain.dump(display=False))] + more:
         try:
             fn()
         except Exception as e:
@@ -283,10 +300,49 @@ def conv_index(ix):
     return int(ix[1])
 
 
-def apply(f, op):
-    """Apply `op` to `f`; return the field that `f` is bound to afterwards."""
+def take_view(x, route):
+    """A view (no copy) of the constructs of `x` (the field or a domain that is
+    itself such a view)."""
+    if route == "domain":
+        return x.domain
+    if route == "get_domain":
+        return x.get_domain()
+    if route == "fromconstructs":
+        return cfdm.Domain.fromconstructs(x.constructs)
+    if route == "fromconstructs-nocopy":
+        return cfdm.Domain.fromconstructs(x.constructs, copy=False)
+    if route == "source":
+        return cfdm.Domain(source=x, copy=False)
+    raise RuntimeError("unknown route " + route)
+
+
+def apply(f, op, regs=None):
+    """Apply `op` to `f`; return the field that `f` is bound to afterwards.
+    `regs`: the registers - regs[0] is the field, the others are views of it
+    (of any depth); an operation with "reg": r > 0 is issued through regs[r]."""
     k = op["op"]
-    tgt = f.domain if op.get("via") == "d" else f
+    if k == "view":
+        regs.append(take_view(regs[op["of"]], op["route"]))
+        return f
+    if k == "sibling":
+        # a second field made from this one without copying: it shares the construct
+        # objects and the data object; container-level calls on it must not reach `f`
+        g = cfdm.Field(source=regs[op.get("of", 0)] if regs else f, copy=False)
+        gregs = [g]
+        op["sub_out"] = []
+        for sub in op["ops"]:
+            try:
+                g2 = apply(g, sub, gregs)
+                op["sub_out"].append("ok")
+                if g2 is not g:
+                    break
+            except Exception as e:
+                op["sub_out"].append(errclass(e))
+        return f
+    if op.get("reg"):
+        tgt = regs[op["reg"]]
+    else:
+        tgt = f.domain if op.get("via") == "d" else f
     if k == "set":
         c = make(op["c"])
         axes = op.get("axes")
@@ -360,6 +416,9 @@ class Gen:
     def __init__(self, seed, malformed):
         self.r = random.Random(seed)
         self.mal = malformed
+        self.pending = []
+        self.nregs = 1
+        self.depth = [0]
 
     def view(self, f):
         C = f.constructs
@@ -491,6 +550,70 @@ class Gen:
             via = "f"
         return {"op": "set", "via": via, "c": spec, "key": key, "axes": None if keep else list(cur)}
 
+    def op_take_view(self, f):
+        r = self.r
+        n = getattr(self, "nregs", 1)
+        if n >= 5:
+            return self.op_domain_axis_edit(f)
+        # favour the deepest register, so that depth grows
+        of = (n - 1) if r.random() < 0.6 else r.randrange(n)
+        routes = ["fromconstructs", "source", "fromconstructs-nocopy"]
+        if of == 0:
+            routes += ["domain", "get_domain"]
+        op = {"op": "view", "of": of, "route": r.choice(routes)}
+        # often go one or two levels deeper at once, then edit an axis through the deepest view
+        k = n
+        while k < 4 and r.random() < 0.6:
+            self.pending.append({"op": "view", "of": k, "route": r.choice(["fromconstructs", "source", "fromconstructs-nocopy"])})
+            k += 1
+        if r.random() < 0.7:
+            self.pending.append("axis-edit")
+        return op
+
+    def through(self, op):
+        """Issue a domain-view operation through a view register (if there is one)."""
+        n = getattr(self, "nregs", 1)
+        if op.get("via") == "d" and n > 1 and self.r.random() < 0.75:
+            # favour views of views
+            deep = [i for i in range(1, n) if self.depth[i] >= 2]
+            op["reg"] = self.r.choice(deep) if deep and self.r.random() < 0.7 else self.r.randrange(1, n)
+        return op
+
+    def op_sibling(self, f):
+        """Container-level calls on g = Field(source=f, copy=False), generated from
+        the state of `f` (g starts as its twin): drop g's data axes or data, then
+        delete / resize axes and delete / insert constructs through g and g.domain."""
+        r = self.r
+        ops = []
+        ch = r.random()
+        if ch < 0.45:
+            ops.append({"op": "del_data_axes", "key": None, "via": "f"})
+        elif ch < 0.7:
+            ops.append({"op": "del_data"})
+            ops.append({"op": "del_data_axes", "key": None, "via": "f"})
+        elif ch < 0.85 and self.axes:
+            ax = self.pick_axes(r.choice([0, 1, 2]))
+            ops.append({"op": "set_data", "shape": [self.axes[a] for a in ax], "axes": ax})
+        for _ in range(r.choice([1, 2, 3, 4])):
+            c = r.random()
+            if c < 0.45:
+                o = self.op_domain_axis_edit(f)
+                o["via"] = r.choice(["f", "d", "core"])
+            elif c < 0.65:
+                o = self.op_del(f)
+            elif c < 0.85:
+                o = self.op_set(f)
+            elif c < 0.93:
+                o = self.op_set_data_axes(f)
+            else:
+                o = self.op_del_data_axes(f)
+            o.pop("reg", None)
+            ops.append(o)
+        op = {"op": "sibling", "ops": ops}
+        if self.nregs > 1 and r.random() < 0.3:
+            op["of"] = r.randrange(1, self.nregs)      # made from a domain that is a view of f
+        return op
+
     def fresh_key(self, t):
         r = self.r
         for _ in range(20):
@@ -562,7 +685,15 @@ class Gen:
         for k, ax in self.daxes.items():
             (hidden if self.types.get(k) in DOMAIN_IGNORES else seen).update(ax)
         only_hidden = [a for a in self.axes if a in hidden and a not in seen]
-        axis = r.choice(only_hidden) if only_hidden and r.random() < 0.7 else r.choice(list(self.axes))
+        spanned = set()
+        for ax in self.daxes.values():
+            spanned.update(ax)
+        # axes that only the field's data span (e.g. made by insert_dimension(None))
+        only_data = [a for a in self.axes if a in (self.fax or ()) and a not in spanned]
+        if only_data and r.random() < 0.45:
+            axis = r.choice(only_data)
+        else:
+            axis = r.choice(only_hidden) if only_hidden and r.random() < 0.7 else r.choice(list(self.axes))
         via = "d" if r.random() < 0.8 else r.choice(["f", "core"])
         if r.random() < 0.5:
             return {"op": "del", "via": via, "key": axis}
@@ -765,13 +896,27 @@ class Gen:
                 axes = self.pick_axes(r.choice([1, 2, 2]))
                 ops.append({"op": "set", "via": "f", "c": self.array_spec(t, axes), "key": None, "axes": axes})
                 made[t] = made.get(t, 0) + 1
+        # a scalar coordinate / domain ancillary (axes=()) that the coordinate references below name:
+        # whatever derives a field from this one must carry it along with the reference
+        scalar = None
+        if r.random() < 0.3:
+            t = r.choice(["auxiliary_coordinate", "auxiliary_coordinate", "domain_ancillary"])
+            scalar = BASE[t] + str(made.get(t, 0))
+            ops.append({"op": "set", "via": "f", "c": {"t": t, "shape": [], "hasdata": True, "bnd": None},
+                        "key": None, "axes": []})
+            made[t] = made.get(t, 0) + 1
+            self.pending.append("convert-full")
         # two or three coordinate references that share coordinates and domain ancillaries
-        if r.random() < 0.5:
+        if scalar or r.random() < 0.5:
             coords = (["dimensioncoordinate%d" % i for i in range(made.get("dimension_coordinate", 0))] +
                       ["auxiliarycoordinate%d" % i for i in range(made.get("auxiliary_coordinate", 0))])
             ancs = ["domainancillary%d" % i for i in range(made.get("domain_ancillary", 0))]
+            if scalar and scalar.startswith("domainancillary"):
+                ancs = [scalar] + [a for a in ancs if a != scalar]
             if coords:
                 shared = r.sample(coords, min(len(coords), r.choice([1, 1, 2])))
+                if scalar in coords and scalar not in shared:
+                    shared.append(scalar)
                 for j in range(r.choice([2, 2, 3])):
                     extra = [c for c in coords if c not in shared and r.random() < 0.3]
                     spec = {"t": "coordinate_reference", "coords": sorted(shared + extra), "ancs": {}}
@@ -792,13 +937,29 @@ class Gen:
         return ops
 
 
-WEIGHTS = [("op_set", 30), ("op_set_fresh_rejected", 5), ("op_domain_axis_edit", 5), ("op_del", 16), ("op_set_data", 6), ("del_data", 2), ("op_set_data_axes", 9),
+WEIGHTS = [("op_set", 30), ("op_set_fresh_rejected", 5), ("op_domain_axis_edit", 6), ("op_take_view", 6), ("op_sibling", 3), ("op_del", 16), ("op_set_data", 6), ("del_data", 2), ("op_set_data_axes", 9),
            ("op_del_data_axes", 3), ("copy", 3), ("op_subspace", 8), ("op_squeeze", 6), ("op_transpose", 6),
            ("op_insert_dimension", 7), ("op_convert", 4)]
 
 
 def next_op(g, f):
     g.view(f)
+    while g.pending:
+        op = g.pending.pop(0)
+        if op == "convert-full":
+            arr = [k for k in g.keys_of(*ARRAY_TYPES) if g.daxes.get(k)]
+            if arr:
+                return {"op": "convert", "key": g.r.choice(arr), "full_domain": True}
+            continue
+        if op == "axis-edit":
+            if g.nregs > 1:
+                op = g.op_domain_axis_edit(f)
+                op["via"] = "d"
+                op["reg"] = g.nregs - 1
+                return op
+            continue
+        if op["of"] < g.nregs:
+            return op
     names = [n for n, _ in WEIGHTS]
     w = [x for _, x in WEIGHTS]
     n = g.r.choices(names, w)[0]
@@ -806,7 +967,9 @@ def next_op(g, f):
         return {"op": "del_data"}
     if n == "copy":
         return {"op": "copy"}
-    return getattr(g, n)(f)
+    if n == "op_sibling":
+        return g.op_sibling(f)
+    return g.through(getattr(g, n)(f))
 
 
 def situation(f, op):
@@ -819,6 +982,13 @@ def situation(f, op):
         key = op.get("key")
         if op["op"] == "set" and isinstance(key, str) and key not in types:
             sit.append("set-under-fresh-key")
+        if op["op"] == "convert" and op.get("full_domain"):
+            da = C.data_axes()
+            for r in C.filter_by_type("coordinate_reference", todict=True).values():
+                named = list(r.coordinates()) + [v for v in r.coordinate_conversion.domain_ancillaries().values() if v]
+                if any(da.get(k) == () for k in named):
+                    sit.append("convert-with-reference-naming-a-scalar-construct")
+                    break
         if op["op"] == "del" and isinstance(key, str) and key in types:
             n = 0
             for r in C.filter_by_type("coordinate_reference", todict=True).values():
@@ -839,6 +1009,8 @@ def situation(f, op):
             for cm in C.filter_by_type("cell_method", todict=True).values():
                 named.update(cm.get_axes(()))
             kind = "deletes" if op["op"] == "del" else "resizes"
+            if key in (f.get_data_axes(default=()) or ()) and not any(key in ax for ax in C.data_axes().values()):
+                sit.append(f"view-{kind}-axis-only-the-field-data-span")
             if key in hidden and key not in seen:
                 sit.append(f"view-{kind}-axis-only-a-field-ancillary-spans")
             elif key in named and key not in seen:
@@ -853,6 +1025,8 @@ def situation(f, op):
 
 def run_case(case):
     f = cfdm.Field()
+    regs = [f]
+    depth = [0]
     steps = []
     prev = None
     gen = None
@@ -870,11 +1044,25 @@ def run_case(case):
                 d = f.get_data(None)
                 op["sizes"] = index_sizes(d.shape if d is not None else (3,), op["idx"])
         else:
+            gen.nregs = len(regs)
+            gen.depth = depth
             op = next_op(gen, f)
         sit = situation(f, op)
+        if op.get("reg"):
+            sit.append("through-view-depth-%d" % depth[op["reg"]])
+        if op["op"] == "sibling":
+            sit.append("calls-on-a-field-made-with-copy=False")
         try:
-            f = apply(f, op)
+            g = apply(f, op, regs)
             out = "ok"
+            if op["op"] == "view":
+                depth.append(depth[op["of"]] + 1)
+                sit.append("take-view-depth-%d" % depth[-1])
+            if g is not f:
+                # the variable is bound to a new field: the views were views of the old one
+                f = g
+                regs[:] = [f]
+                depth[:] = [0]
         except Exception as e:  # a rejected call
             out = errclass(e)
         try:
@@ -885,7 +1073,7 @@ def run_case(case):
         if op["op"] == "set" and op.get("key") is None:
             # the identifier an automatic insertion would have used next
             probes += [BASE[op["c"]["t"]] + str(i) for i in range(0, 12)]
-        bad = oracle(f, probes)
+        bad = oracle(f, probes, regs[1:])
         steps.append({"op": op, "out": out, "state": "same" if st == prev else st, "bad": bad, "sit": sit})
         prev = st
     return {"id": case["id"], "steps": steps}
